@@ -162,7 +162,7 @@ Proof.
       + destruct (dcall s0 d m) as [[sa ra] oa] eqn:E. pose proof E as E'. apply dcall_dsame in E. destruct E as [E1 ->].
         assert (Hr : match ra with DRaise x => Some x | _ => None end = None).
         { unfold RE.dcall in E'. destruct (dev (RE.dst P D s0) d m) as [d' r'] eqn:Ed. inv E'.
-          destruct (Hdev (RE.dst P D s0) d) as (_ & _ & _ & Hp & Hr).
+          destruct (Hdev (RE.dst P D s0) d) as (_ & _ & _ & Hp & Hr & _).
           destruct ra; try reflexivity. exfalso.
           destruct Hm as [-> | ->]; [apply (Hp e) | apply (Hr e)]; rewrite Ed; reflexivity. }
         rewrite Hr.
